@@ -49,6 +49,17 @@ func name(format string) func(string) (string, bool) {
 	}
 }
 
+// key writes the payload as a property key: inside backticks, a backtick of the payload doubled (the grammar's
+// escaped symbolic name; cypher.EscapePropertyKeyName does the same).
+func key(format string) func(string) (string, bool) {
+	return func(p string) (string, bool) {
+		if p == "" {
+			return "", false
+		}
+		return strings.ReplaceAll(format, "%s", "`"+strings.ReplaceAll(p, "`", "``")+"`"), true
+	}
+}
+
 func fixed(text string) func(string) (string, bool) {
 	return func(string) (string, bool) { return text, true }
 }
@@ -76,13 +87,16 @@ var positions = []position{
 	{"contains", "like-contains", lit("match (n) where n.name contains %s return n"), nil},
 	{"starts-with", "like-prefix", lit("match (n) where n.name starts with %s return n"), nil},
 	{"ends-with", "like-suffix", lit("match (n) where n.name ends with %s return n"), nil},
-	{"property-key-where", "string", name("match (n) where n.%s = 1 return n"), nil},
-	{"property-key-return", "string", name("match (n) return n.%s as v"), nil},
-	{"property-key-order", "string", name("match (n) return n order by n.%s"), nil},
-	{"property-key-set", "string", name("match (n) set n.%s = 1 return n"), nil},
-	{"property-key-remove", "string", name("match (n) remove n.%s return n"), nil},
-	{"map-key-pattern", "string", name("match (n {%s: 1}) return n"), nil},
-	{"map-key-create", "string", name("create (n:K {%s: 1}) return n"), nil},
+	{"property-key-where", "string", key("match (n) where n.%s = 1 return n"), nil},
+	{"property-key-return", "string", key("match (n) return n.%s as v"), nil},
+	{"property-key-order", "string", key("match (n) return n order by n.%s"), nil},
+	{"property-key-set", "string", key("match (n) set n.%s = 1 return n"), nil},
+	{"property-key-remove", "string", key("match (n) remove n.%s return n"), nil},
+	{"property-key-set-second", "string", key("match (n) set n.x = 1, n.%s = 2 return n"), nil},
+	{"property-key-set-rel", "string", key("match ()-[r:E]->() set r.%s = 1 return r"), nil},
+	{"property-key-remove-second", "string", key("match (n) remove n.x, n.%s return n"), nil},
+	{"map-key-pattern", "string", key("match (n {%s: 1}) return n"), nil},
+	{"map-key-create", "string", key("create (n:K {%s: 1}) return n"), nil},
 	{"result-alias", "ident", name("match (n) return n.name as %s"), nil},
 	{"variable-name", "ident", name("match (%s) return %s"), nil},
 	{"with-alias", "same", name("match (n) with n as %s return count(%s) as c"), nil},
@@ -94,7 +108,7 @@ var positions = []position{
 	{"shortest-path-root-literal", "frag", lit("match p = shortestPath((a)-[:E*1..]->(b)) where a.name = %s and b.name = 'x' return p"), nil},
 	{"shortest-path-terminal-literal", "frag", lit("match p = shortestPath((a)-[:E*1..]->(b)) where a.name = 'x' and b.name = %s return p"), nil},
 	{"all-shortest-paths-literal", "frag", lit("match p = allShortestPaths((a)-[:E*1..]->(b)) where a.name = %s and b.objectid = 'x' return p"), nil},
-	{"shortest-path-property-key", "frag", name("match p = shortestPath((a)-[:E*1..]->(b)) where a.%s = 'x' and b.name = 'y' return p"), nil},
+	{"shortest-path-property-key", "frag", key("match p = shortestPath((a)-[:E*1..]->(b)) where a.%s = 'x' and b.name = 'y' return p"), nil},
 	{"shortest-path-parameter", "frag", fixed("match p = shortestPath((a)-[:E*1..]->(b)) where a.name = $p and b.name = 'x' return p"), param},
 	{"shortest-path-contains", "frag:like-contains", lit("match p = shortestPath((a)-[:E*1..]->(b)) where a.name contains %s and b.name = 'x' return p"), nil},
 }
